@@ -729,7 +729,24 @@ def _N(i):
     return ast.Name(id=i, ctx=ast.Load())
 
 
+def _donor(src, edit_donor, pick):
+    """nodes taken from ANOTHER formatted tree whose own lists / fields were edited as well (their recorded positions in that tree are stale)"""
+    import fst
+    d = fst.FST(src, 'exec')
+    edit_donor(d.a)
+    return pick(d.a)
+
+
 COMPOUND_EDITS = [
+    ('a = 0\n', 'extend with the rest of another tree whose first statement was popped', lambda t: t.body.extend(_donor('x = 1  # x\ny = 2  # y\nz = 3  # z\n', lambda d: d.body.pop(0), lambda d: d.body))),
+    ('a = 0\n', 'extend with the reversed statements of another tree', lambda t: t.body.extend(_donor('x = 1\ny = 2\nz = 3\n', lambda d: d.body.reverse(), lambda d: d.body))),
+    ('v = [a]\n', 'extend with elements of a list of another tree whose first was popped', lambda t: t.body[0].value.elts.extend(_donor('[x, y, z]\n', lambda d: d.body[0].value.elts.pop(0), lambda d: d.body[0].value.elts))),
+    ('v = [a]\n', 'extend with rotated elements of another tree', lambda t: t.body[0].value.elts.extend(_donor('[x, y, z]\n', lambda d: d.body[0].value.elts.insert(0, d.body[0].value.elts.pop()), lambda d: d.body[0].value.elts))),
+    ('v = 1\n', 'a call of another tree with its arguments reversed', lambda t: setattr(t.body[0], 'value', _donor('q = f(x, y)\n', lambda d: d.body[0].value.args.reverse(), lambda d: d.body[0].value))),
+    ('v = 1\n', 'a BinOp of another tree with its operands swapped', lambda t: setattr(t.body[0], 'value', _donor('q = (a + b) * c\n', lambda d: (lambda b_: (setattr(b_, 'left', b_.right), setattr(b_, 'right', d.body[0].value.left.__class__ and None)))(d.body[0].value) if False else
+                                                                                                                     (lambda b_, l_, r_: (setattr(b_, 'left', r_), setattr(b_, 'right', l_)))(d.body[0].value, d.body[0].value.left, d.body[0].value.right), lambda d: d.body[0].value))),
+    ('v = 1\n', 'one element of a list of another tree whose earlier element was deleted', lambda t: setattr(t.body[0], 'value', _donor('[x, y, z]\n', lambda d: d.body[0].value.elts.pop(0), lambda d: d.body[0].value.elts[1]))),
+    ('def f(): pass\n', 'statements of a function body of another tree, first one popped', lambda t: t.body[0].body.extend(_donor('def g():\n    x = 1\n    y = 2\n    z = 3\n', lambda d: d.body[0].body.pop(0), lambda d: d.body[0].body))),
     ('from a import b\nx = 1  # c\n', 'module=None, level=1', lambda t: (setattr(t.body[0], 'module', None), setattr(t.body[0], 'level', 1))),
     ('from . import b\n', 'module=m, level=0', lambda t: (setattr(t.body[0], 'module', 'm'), setattr(t.body[0], 'level', 0))),
     ('from .a import b\n', 'module=None', lambda t: setattr(t.body[0], 'module', None)),
